@@ -68,7 +68,7 @@ func checkC19(env *kernel.Env) {
 			return SchemaOpts{Keyless: true, Checks: true, Defaults: true, NotNull: true, Generated: true,
 				NoVirtual: env.Avoid("virtual-generated-dml")}
 		},
-		Kinds:      []string{"insert", "insert", "insert-ignore", "replace", "update", "update", "delete"},
+		Kinds:      []string{"insert", "insert", "insert-ignore", "replace", "odku", "update", "update", "delete"},
 		AvoidKinds: avoidIgnoreWithGenerated("generated-stale-under-ignore"),
 		FaultRate:  8, ConstrInv: true, MaxSteps: 22,
 	})
